@@ -1,3 +1,4 @@
+import Btdht.Proofs.GuardTie.Storage
 import Btdht.Proofs.Storage
 /-!
 # C07 — Peer store: exact, duplicate-free, 24-hour, capacity-bounded answers
